@@ -858,4 +858,64 @@ theorem entries_exec_ind (d : Dfsr) (st : Store) (c : Nat) (p : Plan) (w : Nat) 
       rw [hXl] at this
       exact this
 
+
+/-- the channels of the frame set for an indirect-X log pass (no X channel is added) -/
+def selIdxI (d : Dfsr) (chList : Option (List Nat)) : List Nat :=
+  match chList with
+  | none => List.range d.chans.length
+  | some l => sortDedup l
+
+/-- the signed frame spacing used for the implied X (`FrameSet._frameSpacing`) -/
+def spacingOf (d : Dfsr) (s : Int) : Int := if d.upDown = 1 then -(s.natAbs : Int) else (s.natAbs : Int)
+
+theorem new_indirect (d : Dfsr) (S : Sl) (chList : Option (List Nat)) (s : Int) (hrm : d.recMode = 1)
+    (hu : d.spacingUnits = d.depthUnits) (hs : d.spacing = some s)
+    (hlt : ∀ c ∈ selIdxI d chList, c < d.chans.length) :
+    FrameSet.new d S chList 0 = .ok ⟨selIdxI d chList, rangeLen S.start S.stop S.step1,
+      List.replicate (rangeLen S.start S.stop S.step1)
+        (List.replicate (sumN ((selChans d (selIdxI d chList)).map Chan.numValues)) none),
+      List.replicate (rangeLen S.start S.stop S.step1) none, some (spacingOf d s)⟩ := by
+  have hvpf : ∀ cs : List Nat, sumN (cs.map (fun e => ((d.chans[e]?).map Chan.numValues).getD 0))
+      = sumN ((selChans d cs).map Chan.numValues) := by
+    intro cs; simp only [selChans, List.map_map]; congr 1
+    apply List.map_congr_left; intro e _; exact chanAt_nv d e
+  have hany : (selIdxI d chList).any (fun e => decide (e ≥ d.chans.length)) = false := by
+    rw [List.any_eq_false]; intro e he; have := hlt e he; simp; omega
+  unfold FrameSet.new
+  cases chList with
+  | none =>
+    simp only [selIdxI] at hany ⊢
+    simp only [hrm, hany, hu, hs]
+    simp [hvpf, spacingOf]
+  | some l =>
+    simp only [selIdxI] at hany ⊢
+    simp only [hrm, hu, hs]
+    simp [hany, hvpf, spacingOf]
+
+theorem setVals_full (n : Nat) (xs : List Int) (h : xs.length = n) :
+    setVals (List.replicate n none) 0 xs = xs.map some := by
+  apply List.ext_getElem?
+  intro q
+  rw [setVals_getElem _ 0 xs q (by simp [h])]
+  by_cases hq : q < xs.length
+  · simp [hq]
+  · simp [hq]; omega
+
+/-- the grouping of the requested frames by record (`_retFrameSetMap`, sorted) -/
+def groupsOf (R : List (Int × Nat)) (a b c : Nat) : List (Int × List Nat) :=
+  foldMap [] ((rangeList a b c).map (fun f => (locate R f).getD (0, 0)))
+
+theorem allXs_length (sp : Int) (xr : Int → Int) (c : Nat) (G : List (Int × List Nat)) (prev : Option Int)
+    (h : ∀ e ∈ G, e.2 ≠ []) : (allXs sp xr c G prev).length = (G.map (·.2.length)).sum := by
+  induction G generalizing prev with
+  | nil => rfl
+  | cons e es ih =>
+    have he := h e (List.mem_cons_self ..)
+    have : e.2.length - 1 + 1 = e.2.length := by
+      have : 0 < e.2.length := List.length_pos_iff.2 he
+      omega
+    simp only [allXs, List.length_append, entryXs_length, List.map_cons, List.sum_cons, this]
+    rw [ih _ (fun x hx => h x (List.mem_cons_of_mem _ hx))]
+
+
 end TD.C06
